@@ -20,7 +20,9 @@ ASSUMPTIONS = ["required scope alternatives each name at least one scope word (t
 U = ["a", "b", "c", "d"]
 HEADERS = [None, "", "Bearer", "Bearer ", " Bearer {t}", "Bearer {t}", "bearer {t}", "BEARER {t}", "BeArEr  {t}", "Bearer\t{t}",
            "Bearer {t} ", "Bearer {t} x", "Basic {t}", "MAC {t}", "Token {t}", "{t}", "Bearer{t}", "bearer\n{t}"]
-STATES = ["live", "expired", "revoked", "unknown", "live-noexp"]
+# "expired-frac": the lifetime ended a quarter second ago (whole-second issued_at, fractional clock); "live-frac": it ends in a quarter second; "live-boundary": it ends now
+STATES = ["live", "expired", "revoked", "unknown", "live-noexp", "expired-frac", "live-frac", "live-boundary"]
+FRAC = {"expired-frac": 3600.25, "live-frac": 3599.75, "live-boundary": 3600}
 TOKSCOPES = [None, "", "a", "a b", "b a", "a b c d", "c", " a  b "]
 REQS = [None, [], "a", "a b", ["a"], ["a b"], ["a", "c"], ["a b", "c"], ["d", "c d"], ["z"], ["b a"], [""], ["", "z"], "  a  "]
 
@@ -258,13 +260,25 @@ def impl(c):
     if c["kind"] == "remote":
         return impl_remote(c)
     if c["kind"] == "bearer":
+        CLOCK.now = 1_000_000
+        try:
+            return impl_bearer(c)
+        finally:
+            CLOCK.now = 1_000_000
+    return impl_jwt(c)
+
+
+def impl_bearer(c):
+    if True:
         store = ms.Store()
         rp = ResourceProtector()
         rp.register_token_validator(ms.MemBearerValidator(store))
         st = c["state"]
         if st != "unknown":
             t = Token(_store=store, access_token="tok", refresh_token=None, client_id="c1", user_id=1, scope=c["tscope"],
-                      expires_in=0 if st == "live-noexp" else 3600, issued_at=CLOCK() - (7200 if st == "expired" else 10), token_type="Bearer")
+                      expires_in=0 if st == "live-noexp" else 3600, issued_at=1_000_000 if st in FRAC else CLOCK() - (7200 if st == "expired" else 10), token_type="Bearer")
+            if st in FRAC:
+                CLOCK.now = 1_000_000 + FRAC[st]
             if st == "revoked":
                 t.access_token_revoked_at = CLOCK()
             store.tokens.append(t)
@@ -289,7 +303,6 @@ def impl(c):
         if tok is not None:
             out["current"] = tok.access_token
         return out
-    return impl_jwt(c)
 
 
 ISS, RS = "https://as.example", "https://rs.example"
@@ -431,7 +444,7 @@ def model_line(c):
     st = c["state"]
     toks = []
     if st != "unknown":
-        toks.append(["tok", {"expired": st == "expired", "revoked": st == "revoked", "scope": c["tscope"]}])
+        toks.append(["tok", {"expired": st in ("expired", "expired-frac"), "revoked": st == "revoked", "scope": c["tscope"]}])
     h = c["header"]
     return {"types": ["bearer"], "tokens": toks, "auth": None if h is None else h.replace("{t}", "tok"), "required": norm_req(c["required"])}
 
@@ -455,7 +468,7 @@ def expected_bearer(c):
     parts = h.split(None, 1)
     if len(parts) != 2 or parts[0].lower() != "bearer":
         return "unsupported_token_type"
-    if parts[1] != "tok" or c["state"] in ("unknown", "expired", "revoked"):
+    if parts[1] != "tok" or c["state"] in ("unknown", "expired", "expired-frac", "revoked"):
         return "invalid_token"
     rq = norm_req(c["required"])
     if not rq:
